@@ -275,6 +275,15 @@ func (r *c17Run) propagate() *ev.Violation {
 			return nil
 		}
 		if time.Now().After(deadline) {
+			drained := true
+			for _, n := range r.cl.Nodes {
+				drained = drained && n.Drained()
+			}
+			if drained {
+				// nothing is on its way any more (no stream was ever disturbed here), yet a peer's routing table disagrees
+				// with what the node's clients hold: messages will go to the wrong set of nodes from now on
+				return ev.Violf("C17.routing-table", "every event has been acknowledged, but 15 s after the last subscription change %s", bad)
+			}
 			return harnessErr("subscription changes did not propagate within 15 s: %s", bad)
 		}
 		time.Sleep(2 * time.Millisecond)
